@@ -556,7 +556,7 @@ def load(f, **options):  # type: (typing.IO, **typing.Any) -> canmatrix.CanMatri
                 continue
             decoded = l.decode(dbc_import_encoding).strip()
             if decoded.startswith("BO_ "):
-                regexp = re.compile(r"^BO_ ([^\ ]+) ([^\ ]+) *: *([^\ ]+) ([^\ ]+)")
+                regexp = re.compile(r"^BO_ +([^\ ]+) +([^\ ]+) *: *([^\ ]+) +([^\ ]+)")
                 temp = regexp.match(decoded)
     #            db.frames.addFrame(Frame(temp.group(1), temp.group(2), temp.group(3), temp.group(4)))
                 frame = canmatrix.Frame(temp.group(2), arbitration_id=int(temp.group(1)),
@@ -657,12 +657,12 @@ def load(f, **options):  # type: (typing.IO, **typing.Any) -> canmatrix.CanMatri
                         frame.is_complex_multiplexed = True
 
             elif decoded.startswith("BO_TX_BU_ "):
-                regexp = re.compile(r"^BO_TX_BU_ ([0-9]+) *: *(.+) *;")
+                regexp = re.compile(r"^BO_TX_BU_ +([0-9]+) *: *(.+?) *;")
                 temp = regexp.match(decoded)
                 frame = get_frame_by_id(canmatrix.ArbitrationId.from_compound_integer(int(temp.group(1))))
                 for ecu_name in temp.group(2).split(','):
-                    frame.add_transmitter(ecu_name)
-            elif decoded.startswith("CM_ SG_ "):
+                    frame.add_transmitter(ecu_name.strip())
+            elif re.match(r"CM_ +SG_ ", decoded):
                 pattern = r"^CM_ +SG_ +(\S+) +(\S+) +\"(.*)\" *;"
                 regexp = re.compile(pattern)
                 regexp_raw = re.compile(pattern.encode(dbc_import_encoding))
@@ -697,7 +697,7 @@ def load(f, **options):  # type: (typing.IO, **typing.Any) -> canmatrix.CanMatri
                                 (i, line))
                         follow_up = _FollowUps.SIGNAL_COMMENT
 
-            elif decoded.startswith("CM_ BO_ "):
+            elif re.match(r"CM_ +BO_ ", decoded):
                 pattern = r"^CM_ +BO_ +(\S+) +\"(.*)\" *;"
                 regexp = re.compile(pattern)
                 regexp_raw = re.compile(pattern.encode(dbc_import_encoding))
@@ -729,7 +729,7 @@ def load(f, **options):  # type: (typing.IO, **typing.Any) -> canmatrix.CanMatri
                                 "Error decoding line: %d (%s)" %
                                 (i, line))
                         follow_up = _FollowUps.FRAME_COMMENT
-            elif decoded.startswith("CM_ BU_ "):
+            elif re.match(r"CM_ +BU_ ", decoded):
                 pattern = r"^CM_ +BU_ +(\S+) +\"(.*)\" *;"
                 regexp = re.compile(pattern)
                 regexp_raw = re.compile(pattern.encode(dbc_import_encoding))
